@@ -1553,3 +1553,7 @@ def _ftp_gate(ctx):
     ck.expect(ok and bool(targets) and p is None, 'C18-D4', fp.qual, 'FTP fetch only after a true check_ftp_request verdict; a false verdict skips the item',
               'the FTP processor can contact the server without a true filter verdict (tries limit not consulted), or leaves a rejected item un-skipped',
               fp.loc(), path=describe_path(p) if p else None)
+    # ... and robots.txt, the one request made before the verdict is acted on, is asked for only when the filters (retry limit
+    # included) accepted the item: a failing robots.txt fetch checks the item in as error again, whatever its try count
+    from .common import robots_after_verdict_rule
+    robots_after_verdict_rule(ctx, 'C18-D4')
